@@ -1345,7 +1345,9 @@ Qed.
 Definition ex_tsf : sfile :=
   mkS [[L "1 0 -1"]; [L "read file=c2.i"]]
       [ (L "", [[L "c in front"; L "1 so 5"]]);
-        (L "", [[L "mode n"]; [L "read file=d1.i"]; [L "READ FILE = sub/d2.i $ x"; L "c behind"]; [L "nps 10"; L "     11"]]) ].
+        (L "", [[L "mode n"]; [L "read file=d1.i"]; [L "READ FILE = sub/d2.i $ x"; L "c behind"]; [L "nps 10"; L "     11"]]);
+        (* behind the blank line that ends the data block: not looked at, the read card is not followed *)
+        (L "", [[L "read file=nowhere.i"]; [L "  notes # of any kind"]]) ].
 Definition ex_tree : stree :=
   [ ("/p/c2.i", mkS [[L "2 0 1"]] []);
     ("/p/d1.i", mkS [[L "sdef"]; [L "read &"; L "file sub/d3.i"]] []);
